@@ -86,22 +86,34 @@ Qed.
 (* password paths                                                                                    *)
 (* ------------------------------------------------------------------------------------------------ *)
 
-Lemma is_pw_inv : forall p, is_pw p = true ->
-  exists a b, p = [a; b; pw_key] /\ in_pw_section a = true.
+Lemma in_pw_section_split : forall a, in_pw_section a = in_deep_section a || in_flat_section a.
+Proof. intros a. unfold in_pw_section, pw_sections, in_deep_section, in_flat_section. apply existsb_app. Qed.
+
+Lemma is_pw_unfold : forall p, is_pw p = true ->
+  (3 <= List.length p)%nat /\ last p [] = pw_key /\ (in_deep_section (hd [] p) = true \/ (in_flat_section (hd [] p) = true /\ List.length p = 3%nat)).
 Proof.
-  intros p H. destruct p as [|a [|b [|c [|x r]]]]; simpl in H; try discriminate.
-  apply andb_prop in H. destruct H as [H1 H2]. apply beq_eq in H2. subst c.
-  exists a, b. split; [reflexivity|exact H1].
+  intros p H. unfold is_pw in H.
+  apply andb_prop in H. destruct H as [H H3]. apply andb_prop in H. destruct H as [H1 H2].
+  apply Nat.leb_le in H1. apply beq_eq in H2. split; [exact H1|]. split; [exact H2|].
+  apply orb_prop in H3. destruct H3 as [H3|H3]; [left; exact H3|right].
+  apply andb_prop in H3. destruct H3 as [H3 H4]. apply Nat.eqb_eq in H4. split; assumption.
 Qed.
 
 Lemma is_pw_last : forall p, is_pw p = true -> last p [] = pw_key.
-Proof. intros p H. destruct (is_pw_inv p H) as (a & b & E & _). subst. reflexivity. Qed.
+Proof. intros p H. apply is_pw_unfold in H. tauto. Qed.
 
-Lemma is_pw_len : forall p, is_pw p = true -> List.length p = 3%nat.
-Proof. intros p H. destruct (is_pw_inv p H) as (a & b & E & _). subst. reflexivity. Qed.
+Lemma is_pw_len3 : forall p, is_pw p = true -> (3 <= List.length p)%nat.
+Proof. intros p H. apply is_pw_unfold in H. tauto. Qed.
 
 Lemma is_pw_hd : forall p, is_pw p = true -> in_pw_section (hd [] p) = true.
-Proof. intros p H. destruct (is_pw_inv p H) as (a & b & E & S). subst. exact S. Qed.
+Proof.
+  intros p H. apply is_pw_unfold in H. destruct H as (_ & _ & [H|[H _]]); rewrite in_pw_section_split, H;
+    [reflexivity|apply orb_true_r].
+Qed.
+
+(* outside the sections whose profiles nest, a password path has exactly three segments *)
+Lemma is_pw_flat_len : forall p, is_pw p = true -> in_deep_section (hd [] p) = false -> List.length p = 3%nat.
+Proof. intros p H D. apply is_pw_unfold in H. destruct H as (_ & _ & [H|[_ H]]); [congruence|exact H]. Qed.
 
 (* no password path is p or lies below p *)
 Definition safe_below (p : list bytes) : Prop := forall q, is_pw (p ++ q) = false.
@@ -118,10 +130,12 @@ Proof.
   destruct (is_pw ((a :: r) ++ q)) eqn:E; [|reflexivity]. exfalso.
   apply orb_prop in H. destruct H as [H|H].
   - apply is_pw_hd in E. simpl in E. rewrite E in H. discriminate.
-  - apply andb_prop in H. destruct H as [H1 H2].
+  - apply andb_prop in H. destruct H as [H H2]. apply andb_prop in H. destruct H as [H0 H1].
+    apply negb_true_iff in H0. apply Nat.leb_le in H1.
+    apply is_pw_flat_len in E as L; [|exact H0].
     destruct q as [|x q].
     + rewrite app_nil_r in E. rewrite E in H2. discriminate.
-    + apply is_pw_len in E. rewrite app_length in E. apply Nat.leb_le in H1. simpl in E, H1. lia.
+    + rewrite app_length in L. simpl in L, H1. lia.
 Qed.
 
 (* ------------------------------------------------------------------------------------------------ *)
@@ -311,22 +325,32 @@ Section Proofs.
   (* the three reasons a pattern is accepted                                                         *)
   (* ---------------------------------------------------------------------------------------------- *)
 
+  (* a literal head with a dot pins the first segment of every instance *)
+  Lemma lead_hd : forall ps env pat key q,
+    (0 < count_dots (lower (lead pat)))%nat -> In key (inst to_string ps env pat) ->
+    key_path key = path_of key /\
+    hd [] (path_of key ++ q) = hd [] (split_dots (lower (lead pat))).
+  Proof.
+    intros ps env pat key q F1 H.
+    destruct (inst_lead ps env pat key H) as (rest & E).
+    split; [apply key_path_dots; rewrite E, lower_app, count_dots_app; lia|].
+    unfold path_of. rewrite E, lower_app.
+    pose proof (split_dots_nonempty (lower (lead pat) ++ lower rest)) as N.
+    pose proof (hd_split_app (lower (lead pat)) (lower rest) [] F1) as Hh.
+    destruct (split_dots (lower (lead pat) ++ lower rest)) as [|h t] eqn:S; [congruence|].
+    exact Hh.
+  Qed.
+
   Lemma first_seg_sound : forall ps env pat key,
     first_seg_safe pat = true -> In key (inst to_string ps env pat) -> safe_below (key_path key).
   Proof.
     intros ps env pat key F H q. unfold first_seg_safe in F. cbv zeta in F. apply andb_prop in F. destruct F as [F1 F2].
     apply Nat.ltb_lt in F1.
-    destruct (inst_lead ps env pat key H) as (rest & E).
-    rewrite key_path_dots by (rewrite E, lower_app, count_dots_app; lia).
+    destruct (lead_hd ps env pat key q F1 H) as [K Hh]. rewrite K.
     destruct (is_pw (path_of key ++ q)) eqn:P; [|reflexivity]. exfalso.
-    apply is_pw_hd in P. unfold path_of in P. rewrite E, lower_app in P.
-    pose proof (split_dots_nonempty (lower (lead pat) ++ lower rest)) as N.
-    destruct (split_dots (lower (lead pat) ++ lower rest)) as [|h t] eqn:S; [congruence|].
-    change (hd [] ((h :: t) ++ q)) with h in P.
-    pose proof (hd_split_app (lower (lead pat)) (lower rest) [] F1) as Hh. rewrite S in Hh.
-    change (hd [] (h :: t)) with h in Hh.
+    apply is_pw_hd in P.
     change (negb (in_pw_section (hd [] (split_dots (lower (lead pat))))) = true) in F2.
-    unfold bytes in *. rewrite <- Hh in F2. rewrite P in F2. discriminate.
+    unfold bytes in *. rewrite Hh in P. rewrite P in F2. discriminate.
   Qed.
 
   Lemma last_seg_sound : forall ps env pat key,
@@ -344,16 +368,21 @@ Section Proofs.
   Qed.
 
   Lemma last_seg_below_sound : forall ps env pat key,
-    last_seg_safe pat = true -> (2 <= fixed_dots pat)%nat -> In key (inst to_string ps env pat) ->
-    safe_below (key_path key).
+    last_seg_safe pat = true -> (2 <= fixed_dots pat)%nat -> first_seg_not_deep pat = true ->
+    In key (inst to_string ps env pat) -> safe_below (key_path key).
   Proof.
-    intros ps env pat key F D H q.
+    intros ps env pat key F D N H q.
     destruct q as [|x q]; [rewrite app_nil_r; eapply last_seg_sound; eauto|].
     pose proof (inst_dots ps env pat key H) as ID.
-    rewrite key_path_dots by lia.
+    unfold first_seg_not_deep in N. cbv zeta in N. apply andb_prop in N. destruct N as [N1 N2].
+    apply Nat.ltb_lt in N1.
+    destruct (lead_hd ps env pat key (x :: q) N1 H) as [K Hh]. rewrite K.
     destruct (is_pw (path_of key ++ x :: q)) eqn:P; [|reflexivity]. exfalso.
-    apply is_pw_len in P. rewrite app_length in P. unfold path_of in P. rewrite split_dots_length in P.
-    simpl in P. lia.
+    change (negb (in_deep_section (hd [] (split_dots (lower (lead pat))))) = true) in N2.
+    apply negb_true_iff in N2.
+    apply is_pw_flat_len in P.
+    - rewrite app_length in P. unfold path_of in P. rewrite split_dots_length in P. simpl in P. lia.
+    - unfold bytes in *. rewrite Hh. exact N2.
   Qed.
 
   Lemma exact_ok_sound : forall ps env pat key,
@@ -377,8 +406,8 @@ Section Proofs.
       apply path_below_ok_safe. exact O.
     - apply orb_prop in O. destruct O as [O|O].
       + eapply first_seg_sound; eauto.
-      + apply andb_prop in O. destruct O as [O1 O2]. apply Nat.leb_le in O2.
-        eapply last_seg_below_sound; eauto.
+      + apply andb_prop in O. destruct O as [O O3]. apply andb_prop in O. destruct O as [O1 O2].
+        apply Nat.leb_le in O2. eapply last_seg_below_sound; eauto.
   Qed.
 
   (* an accepted row never touches a password value, whatever fills its holes *)
@@ -561,6 +590,35 @@ Definition ex_bad_package : list rrow :=
   [RRow 1 "*" KScalar [PFix "notifier.mail.password"] "viper.GetString" "" ""].
 Lemma ex_bad_package_refuted : ex_leaks ex_bad_package [].
 Proof. split; [reflexivity|]. split; [exact ex_agree|]. vm_compute. discriminate. Qed.
+
+(* nested profile names: the SASL profile "prod.east" lives inside the profile "prod"; its password sits at the
+   four-segment path sasl.prod.east.password and is a password like any other *)
+Definition ex_nest (pw : string) : tree :=
+  Node (KCons (pb "sasl") (Node (KCons (pb "prod") (Node
+           (KCons (pb "username") (Leaf (VStr (pb "parent")))
+           (KCons (pb "password") (Leaf (VStr (pb "same in both")))
+           (KCons (pb "east") (Node
+              (KCons (pb "username") (Leaf (VStr (pb "child")))
+              (KCons (pb "password") (Leaf (VStr (pb pw))) KNil))) KNil)))) KNil))
+       KNil).
+
+Lemma ex_nest_agree : agree_except_passwords (ex_nest "tango") (ex_nest "foxtrot") /\ ex_nest "tango" <> ex_nest "foxtrot".
+Proof. split; [vm_compute; intuition|discriminate]. Qed.
+
+(* one level of values below sasl.<name>.east: the literal tail ".east" is not "password" and the key has three
+   segments, which is enough below notifier.<n>.extras -- but not below "sasl", where it is the child profile *)
+Definition ex_bad_nested : list rrow :=
+  [RRow 1 "h" KChildren [PFix "sasl."; PParam "name"; PFix ".east"] "viper.GetStringMapString" "" ""].
+Lemma ex_bad_nested_refuted :
+  reads_avoid_passwords ex_bad_nested = false /\
+  ex_observe ex_bad_nested (ex_nest "tango") "h" [(pb "name", pb "prod")]
+  <> ex_observe ex_bad_nested (ex_nest "foxtrot") "h" [(pb "name", pb "prod")].
+Proof. split; [reflexivity|vm_compute; discriminate]. Qed.
+
+(* the same read below notifier.<n>.extras is accepted *)
+Lemma ex_extras_accepted :
+  reads_avoid_passwords [RRow 1 "h" KChildren [PFix "notifier."; PParam "name"; PFix ".extras"] "viper.GetStringMapString" "" ""] = true.
+Proof. reflexivity. Qed.
 
 (* anything the translator could not analyse is rejected *)
 Lemma ex_unknown_rejected :
